@@ -112,6 +112,11 @@ theorem step_arm (cfg : Cfg) (hf : ArmFacts cfg) (tok : Nat) (st : State) (i : I
       · split
         · exact clientRecvMany_arm cfg sid dgs st h
         · exact h
+  | recvKeyFail lid n =>
+    simp only [step]; split
+    · exact h
+    · split <;> exact h
+  | viaKeyFail lid => exact h
   | connect a v6 =>
     exact ArmC.setSess h _ _ (fun s hs => by cases hs; intro _; exact ⟨hf.2.2.1, rfl⟩)
   | via lid a v6 =>
@@ -231,7 +236,7 @@ theorem closeAll_stays (cfg : Cfg) (w : Why) (sid : Nat) : ∀ (l : List Nat) (s
       · exact Or.inr ⟨w', List.mem_append_right _ hw⟩
     · exact Or.inr ⟨w', List.mem_append_left _ hw⟩
 
-theorem recvOne_same (cfg : Cfg) (lid : Lid) (st : State) (d : Nat × Bytes) (h : Inv st) (sid : Nat) (s : Sess)
+theorem recvOne_same (cfg : Cfg) (lid : Lid) (st : State) (d : Nat × Bytes) (h : Inv cfg st) (sid : Nat) (s : Sess)
     (hs : st.sessions sid = some s) : ∃ s', (recvOne cfg lid st d).1.sessions sid = some s' ∧ Same s s' := by
   unfold recvOne
   simp only
@@ -251,7 +256,7 @@ theorem recvOne_same (cfg : Cfg) (lid : Lid) (st : State) (d : Nat × Bytes) (h 
           exact ⟨{ s with lastActivity := st.now }, by simp, rfl, rfl, rfl⟩
         · exact stays_upd_other st sid _ s _ hs e _ rfl
 
-theorem recvMany_same (cfg : Cfg) (lid : Lid) : ∀ (ds : List (Nat × Bytes)) (st : State), Inv st → ∀ (sid : Nat) (s : Sess),
+theorem recvMany_same (cfg : Cfg) (lid : Lid) : ∀ (ds : List (Nat × Bytes)) (st : State), Inv cfg st → ∀ (sid : Nat) (s : Sess),
     st.sessions sid = some s → ∃ s', (recvMany cfg lid st ds).1.sessions sid = some s' ∧ Same s s'
   | [], st, _, sid, s, hs => ⟨s, hs, Same.rfl' s⟩
   | d :: ds, st, h, sid, s, hs => by
@@ -282,7 +287,7 @@ theorem clientRecvMany_same (cfg : Cfg) (x : Nat) : ∀ (ds : List Bytes) (st : 
 /-- **a session stays**: whatever the I/O thread does next, an open session is still in the table afterwards, with the same peer,
 role and owner — unless that step closes it, and then the step reports `closed sid`. Holds for client-socket sessions and for
 ServerPeer sessions alike; a datagram, a send, a flush or the close/expiry of ANOTHER session never removes or re-peers it. -/
-theorem step_stays (cfg : Cfg) (tok : Nat) (st : State) (i : In) (h : Inv st) (sid : Nat) (s : Sess) (hs : st.sessions sid = some s) :
+theorem step_stays (cfg : Cfg) (tok : Nat) (st : State) (i : In) (h : Inv cfg st) (sid : Nat) (s : Sess) (hs : st.sessions sid = some s) :
     Stays sid s (step cfg tok st i) := by
   have keep : Stays sid s (st, []) := Or.inl ⟨s, hs, Same.rfl' s⟩
   have fresh : sid ≠ st.nextSid := by have := h.fresh sid s hs; omega
@@ -309,6 +314,13 @@ theorem step_stays (cfg : Cfg) (tok : Nat) (st : State) (i : In) (h : Inv st) (s
       · split
         · exact Or.inl (clientRecvMany_same cfg x dgs st sid s hs)
         · exact keep
+  | recvKeyFail lid n =>
+    simp only [step]; split
+    · exact keep
+    · split
+      · exact Or.inl ⟨s, hs, Same.rfl' s⟩
+      · exact keep
+  | viaKeyFail lid => exact Or.inl ⟨s, hs, Same.rfl' s⟩
   | connect a v6 => exact Or.inl (stays_upd_other st sid _ s _ hs fresh _ rfl)
   | via lid a v6 =>
     simp only [step, viaDo]
@@ -398,14 +410,14 @@ theorem recvMany_append (cfg : Cfg) (lid : Lid) : ∀ (a b : List (Nat × Bytes)
 
 /-- inside ONE `recvfrom` loop that returns `pre ++ d :: post`: if `a ↦ sid` when the loop starts, the datagram `d` from `a` — wherever
 it sits in the batch, whatever other peers' datagrams (and accepts) come before it — is exactly one data event on `sid`. -/
-theorem recvMany_trace (cfg : Cfg) (lid : Lid) (st : State) (h : Inv st) (a sid : Nat) (hix : st.peerIndex a = some sid)
+theorem recvMany_trace (cfg : Cfg) (hK : KeyInjective cfg.key) (lid : Lid) (st : State) (h : Inv cfg st) (a sid : Nat) (hix : st.peerIndex (cfg.key a) = some sid)
     (pre post : List (Nat × Bytes)) (d : Nat × Bytes) (hd : d.1 = a) (hne : d.2 ≠ []) (hlen : d.2.length ≤ cfg.ioReadChunk) :
     (recvOne cfg lid (recvMany cfg lid st pre).1 d).2 = [.data sid d.2] ∧
     (recvMany cfg lid st (pre ++ d :: post)).2 =
       (recvMany cfg lid st pre).2 ++ [.data sid d.2] ++ (recvMany cfg lid (recvOne cfg lid (recvMany cfg lid st pre).1 d).1 post).2 := by
   have h1 := recvMany_inv cfg lid pre st h
-  have h2 := recvMany_keeps_idx cfg lid a sid pre st hix
-  obtain ⟨sid', s, _, _, _, _, hout⟩ := recvOne_spec cfg lid _ d.1 d.2 h1 hne hlen (Or.inr (by rw [hd, h2]; rfl))
+  have h2 := recvMany_keeps_idx cfg lid (cfg.key a) sid pre st hix
+  obtain ⟨sid', s, _, _, _, _, hout⟩ := recvOne_spec cfg hK lid _ d.1 d.2 h1 hne hlen (Or.inr (by rw [hd, h2]; rfl))
   have hone : (recvOne cfg lid (recvMany cfg lid st pre).1 d).2 = [.data sid d.2] := by
     rcases hout with ⟨e1, e2⟩ | ⟨e1, _, _⟩
     · rw [hd, h2] at e1; cases e1; exact e2
